@@ -51,4 +51,4 @@ def c07(ctx: Ctx):
                 "+ unmentioned options / nil Options + no-callback focus + histories (second validation through an alias path item sharing the Operation value, a sibling "
                 "operation, an in-place edit of parameters / security / requestBody, then the first route again; thorough: chains of two kinds); "
                 "every case distinct, every call of every history judged")
-    ctx.validate("Trace_C07", "Trace_C07.cfg", logp, chunk_lines=2350 if ctx.tier == "quick" else 2500)
+    ctx.validate("Trace_C07", "Trace_C07.cfg", logp, chunk_lines=2400 if ctx.tier == "quick" else 2500)
